@@ -791,8 +791,8 @@ struct Digit {
                     }
 
                     if (drop != 0) {
-                        round_up = true;
-                        bigIntDropDigits(b_int, drop);
+                        // A trailing '5' is more than a tie only when something non-zero is dropped.
+                        round_up |= bigIntDropDigits(b_int, drop);
                     }
                 } else {
                     SizeT32 shift   = 0;
@@ -947,17 +947,20 @@ struct Digit {
     }
 
     template <typename BigInt_T>
-    inline static void bigIntDropDigits(BigInt_T &b_int, SizeT32 drop) noexcept {
+    inline static bool bigIntDropDigits(BigInt_T &b_int, SizeT32 drop) noexcept {
         using DigitConst = DigitUtils::DigitConst<BigInt_T::SizeOfType()>;
+        bool inexact     = false;
 
         while (drop >= DigitConst::MaxPowerOfFive) {
-            b_int /= DigitConst::GetPowerOfFive(DigitConst::MaxPowerOfFive);
+            inexact |= (b_int.Divide(DigitConst::GetPowerOfFive(DigitConst::MaxPowerOfFive)) != 0);
             drop -= DigitConst::MaxPowerOfFive;
         }
 
         if (drop != 0) {
-            b_int /= DigitConst::GetPowerOfFive(drop);
+            inexact |= (b_int.Divide(DigitConst::GetPowerOfFive(drop)) != 0);
         }
+
+        return inexact;
     }
 
     template <typename Stream_T>
